@@ -1348,4 +1348,68 @@ example : (validateDPoP demoAth 900 100 [] { demoCheck with thumbprint := "jkt#2
     (validateDPoP demoAth 900 100 [] { demoCheck with fault := true }).1.length = 0 ∧
     (validateDPoP demoAth 900 100 [] demoCheck).1.length = 1 := by decide
 
+private theorem app_left_cancel (p a b : String) (h : p ++ a = p ++ b) : a = b := by
+  have := congrArg String.toList h
+  simp only [String.toList_append] at this
+  exact String.toList_inj.mp (List.append_cancel_left this)
+private theorem app_right_cancel (s a b : String) (h : a ++ s = b ++ s) : a = b := by
+  have := congrArg String.toList h
+  simp only [String.toList_append] at this
+  exact String.toList_inj.mp (List.append_cancel_right this)
+
+/-- the `cnf` member introspection renders determines the thumbprint -/
+theorem cnf_render_inj (a b : String) (h : "{\"jkt\":" ++ jstr a ++ "}" = "{\"jkt\":" ++ jstr b ++ "}") : a = b := by
+  have h1 := app_right_cancel _ _ _ h
+  have h2 := app_left_cancel _ _ _ h1
+  unfold jstr at h2
+  exact app_left_cancel _ _ _ (app_right_cancel _ _ _ h2)
+
+/-- **dpop_binding_end_to_end (issuance → introspection → validation).** For a token issued at `t` (any history before and
+    after): if at `now` introspection answers active and the resource server validates a proof of possession against the
+    `cnf.jkt` of that answer, then `valid` implies the token was issued key-bound, the proof was made with exactly the key proven
+    at issuance, its `ath` names exactly this token, the token is unexpired and the proof is used for the first time. -/
+theorem dpop_binding_end_to_end (cfg : Cfg) (sha : String → String) (hchk : cfg.emptyVpChecked = true)
+    (httl : cfg.nonceTtl ≠ 0) (httl' : cfg.tokenTtl ≠ 0) (hsame : cfg.tokenTtl = cfg.tokenValidity)
+    (pre post : List (Nat × Op)) (t : Nat) (op : Op) (name : String) (rec : TokenRec)
+    (hwf : HistWF (pre ++ (t, op) :: post))
+    (hiss : Issued cfg sha (after cfg sha pre {}) t op name rec) (now : Nat)
+    (r : Introspection) (hint : introspect cfg (after cfg sha (pre ++ (t, op) :: post) {}) now name = .ok (some r))
+    (athf : String → String) (ttl : Nat) (st st' : Store Unit) (c : DPoPCheck) (htok : c.token = name)
+    (hthumb : r.cnf = some ("{\"jkt\":" ++ jstr c.thumbprint ++ "}"))
+    (hv : validateDPoP athf ttl now st c = (st', .ok .valid)) :
+    ∃ d p, rec.dpop = some d ∧ c.proof = some p ∧ p.jkt = d.jkt ∧ p.ath = .str (athf name) ∧
+      now ≤ t + cfg.tokenValidity ∧ st.get now p.jti = none := by
+  have hf := introspect_faithful cfg sha hchk httl httl' hsame pre post t op name rec hwf hiss now
+  rw [hint] at hf
+  by_cases hle : now ≤ t + cfg.tokenValidity
+  · rw [if_pos hle] at hf
+    cases hres : firstReserved cfg.reserved rec.claims with
+    | some k => rw [hres] at hf; cases hf
+    | none =>
+      rw [hres] at hf
+      simp only at hf
+      have hr : r = _ := Option.some.inj (Res.ok.inj hf)
+      rw [hr] at hthumb
+      simp only at hthumb
+      cases hd : rec.dpop with
+      | none => rw [hd] at hthumb; cases hthumb
+      | some d =>
+        rw [hd] at hthumb
+        have hj : d.jkt = c.thumbprint := cnf_render_inj _ _ (Option.some.inj hthumb)
+        obtain ⟨p, hacc⟩ := validateDPoP_valid athf ttl now st st' c hv
+        refine ⟨d, p, rfl, hacc.parsed, ?_, ?_, hle, hacc.fresh⟩
+        · rw [hacc.key, hj]
+        · rw [hacc.token, htok]
+  · rw [if_neg hle] at hf
+    cases hf
+
+/-! non-vacuity: the code-flow token of `demoHistory` is bound to THUMB; a proof by that key for that token is valid against the
+    introspected thumbprint, a proof by another key is not -/
+example : (match introspect witnessCfg (after witnessCfg demoSha demoHistory {}) 500 "tok#0" with
+      | .ok (some r) => r.cnf
+      | _ => none) = some ("{\"jkt\":" ++ jstr "THUMB" ++ "}") ∧
+    (validateDPoP demoAth 900 500 [] { demoCheck with thumbprint := "THUMB", proof := some { demoProof with jkt := "THUMB" } }).2
+      = .ok .valid ∧
+    (validateDPoP demoAth 900 500 [] { demoCheck with thumbprint := "THUMB" }).2 = .ok (.invalid "jkt mismatch") := by decide
+
 end Nuts.C02.Props
